@@ -36,7 +36,7 @@ def modes(c, shard):
 
     g = c.custom
     if g in ("mode6", "mode10"):
-        for m in D.ModeSense(g == "mode10").walk_modes(small=shard["small"]):
+        for m in D.ModeSense(g == "mode10", opaque_pages=False).walk_modes(small=shard["small"]):
             if m[2] != "rand":
                 yield m
     elif g == "prout":
@@ -161,7 +161,7 @@ def sensed_flow(ctx, c, shard):
     from vmon.spec import datain as D, dataout as DO
 
     ten = c.custom == "mode10"
-    f = D.ModeSense(ten)
+    f = D.ModeSense(ten, opaque_pages=False)
     rng = ctx.rng("sensed")
     for key in D.MODE_PAGES:
         for nbd in (0, 1, 2, 3):
